@@ -143,6 +143,9 @@ func (e *Exec) sortOf(t types.Type) Sort {
 	if s.K == SFP && e.fpRelaxed {
 		return RealSort
 	}
+	if s.K == SBV && mathInts {
+		return IntSort
+	}
 	return s
 }
 
@@ -158,6 +161,8 @@ func (e *Exec) zero(t types.Type) Value {
 			return False
 		case SBV:
 			return BVConst(0, s.W)
+		case SInt:
+			return IntConst(0)
 		case SFP:
 			return FPConst(0)
 		case SReal:
